@@ -489,6 +489,25 @@ func (dc *delimCtx) entryClosers() {
 			ents = append(ents, ent{"embedded code \"{{\"", fn, "RBRACES"})
 		}
 	}
+	// the list parser itself requires the end token it is given: the constructs above count a call of it with their
+	// closer as the point where the closer is required
+	if pel := m.Method("parser", "Parser", "parseExpressionList"); pel != nil && pel.Blocks != nil {
+		idx := -1
+		for i, q := range pel.Params {
+			if strings.HasSuffix(q.Type().String(), "token.TokenType") {
+				idx = i
+			}
+		}
+		key := fnKey(pel) + "|an expression list requires the end token it is given"
+		switch {
+		case idx < 0:
+			dc.s.Undecided(dc.rule, key, m.Pos(pel.Pos()), "no token parameter found")
+		case dc.paramCloser(pel, idx):
+			dc.s.OK(dc.rule, key, m.Pos(pel.Pos()), "every successful return lies behind the success edge of an expect function called with that parameter")
+		default:
+			dc.s.Violation(dc.rule, key, m.Pos(pel.Pos()), "%s can return a list without having required its end token (a return on another condition, e.g. at the end of the input): a directive or a literal cut off inside its list is accepted without an error", fnKey(pel))
+		}
+	}
 	seenLB := false
 	for _, e := range ents {
 		if e.closer == "RBRACES" {
